@@ -115,3 +115,12 @@ claim('C13', 'bounded symbolic execution of the real generate_stats: diffs assem
       'Aggregation: per-file figures are unconstrained z3 integers in trees up to 2x2 (quick) / 3x3 (thorough); sums and '
       'counts are shown for all integers, custom keys preserved, idempotent.',
       BASE_NOTE, 'DESIGN.md section 4, C13')
+
+claim('C19', 'bounded symbolic execution of the real descriptors and __eq__/__ne__ with symbolic candidate values and independently symbolic tree fields; z3 decides stored<=>valid and ==<=>field-wise equality',
+      'Every typed attribute (own and forwarded) of every section class is assigned candidate values of every kind '
+      '(symbolic str of several lengths, each documented choice, symbolic int, bool, bytes, None, dict, list): stored '
+      '=> declared type and allowed choice, readable back; raised => whole-tree snapshot unchanged; valid values never '
+      'rejected. Two trees (0..1 changes x 0..1 files quick / 0..2 thorough) with independently present/symbolic fields: '
+      'A==B <=> same shape and field-wise equal, != its negation, equal trees serialise identically; any single-field '
+      'perturbation with a symbolic different value makes trees unequal.',
+      BASE_NOTE, 'DESIGN.md section 4, C19')
